@@ -52,6 +52,8 @@ def top_items(body):
     if last: out.append(last)
     return out
 
+FIELDLESS = set()
+
 def load(root):
     enums, structs = {}, {}
     for p in glob.glob(os.path.join(root, 'src', '**', '*.rs'), recursive=True):
@@ -59,11 +61,14 @@ def load(root):
         for m in re.finditer(r'\benum\s+(\w+)\s*(?:<[^>{]*>)?\s*\{', s):
             items = top_items(body_at(s, m.end() - 1))
             names = []
+            plain = True
             for it in items:
                 it = re.sub(r'#\[[^\]]*\]', '', it).strip()
                 mm = re.match(r'(\w+)', it)
                 if mm: names.append(mm.group(1))
+                if not re.match(r'^\w+(\s*=\s*-?\d+)?$', it): plain = False
             enums.setdefault(m.group(1), names)
+            if plain: FIELDLESS.add(m.group(1))
         for m in re.finditer(r'\bstruct\s+(\w+)\s*(?:<[^>{]*>)?\s*(?:where[^{]*)?\{', s):
             items = top_items(body_at(s, m.end() - 1))
             names = []
